@@ -52,13 +52,18 @@ def near_operands(g, a, b, c, k, shape):
     out.append("%" + a)
     out.append("$" + (k if not k.startswith("-") else "0x8"))
     out.append(mem(a, b, c, k + "0", shape | 4))
+    # the same displacement with the opposite sign (a pattern written `8` or `0x8` must not accept `-0x8` and vice versa)
+    kk = k if k.startswith(("0x", "-")) else "0x" + k
+    neg = kk[1:] if kk.startswith("-") else "-" + kk
+    out.append(mem(a, b, c, neg, shape | 4))
+    out.append(mem(a, b, c, neg, 4))
     return out
 
 
 def run(ctx, factor):
     g, rep = ctx.g, ctx.report
     rep.rule = ("one $deref operand per rule over the 8 present/absent field combinations x %/0x spellings; for each rule "
-                "10 operands: the described one and near misses (other base/index/scale/displacement, extra or missing "
+                "12 operands: the described one and near misses (incl. the displacement with the opposite sign) (other base/index/scale/displacement, extra or missing "
                 "component, register, immediate, displacement with one more digit), printed in AT&T form and sent "
                 "through the real parser; verdict vs the specification's set of accepted normal forms")
     n = ctx.budget(40, 900) * factor
